@@ -141,6 +141,14 @@ def prepare(force=False, log=print):
         st["vo"] = sorted(f[:-2] + ".vo" for f in files if os.path.exists(os.path.join(COQ, f[:-2] + ".vo"))
                           and os.path.getmtime(os.path.join(COQ, f[:-2] + ".vo")) >= os.path.getmtime(os.path.join(COQ, f)))
         st["vo_missing"] = sorted(f[:-2] + ".vo" for f in files if (f[:-2] + ".vo") not in st["vo"])
+        # a file that no longer compiles must not leave its OLD .vo behind: a property file compiled afterwards
+        # would silently be checked against the previous version of the (regenerated) definitions
+        for f in st["vo_missing"]:
+            for ext in (".vo", ".vos", ".vok", ".glob"):
+                try:
+                    os.remove(os.path.join(COQ, f[:-3] + ext))
+                except OSError:
+                    pass
         if rc != 0:
             errs = re.findall(r'File "\./([^"]+)", line (\d+)[^\n]*\n(?:[^\n]*\n){0,6}', out)
             st["errors"]["coq"] = out[-6000:]
